@@ -16,13 +16,15 @@ from outrank.core_ranking import mixed_rank_graph
 ID = 'C06'
 RULE = ('Column sets of 1-40 unique names (ASCII, spaces, unicode, punctuation, names containing " AND_REL " acting as 3MR relation '
         'features, label at any position) over tiny string frames (3-8 rows); mode target-only / pairwise; heuristic in '
-        '{MI-numba-randomized, MI-numba-3mr, Constant}; cap in {1..|candidates|+5, 2^15, 10^4+1, 10^5}; fresh sampler state per '
-        'case. Non-trivial = >=3 columns and (cap < |required pairs| or pairwise or 3MR). Distinct = digest of the case.')
+        '{MI-numba-randomized, MI-numba-3mr, Constant}; cap in {1..|candidates|+5, 2^15, 10^4+1, 10^5}; 1-3 consecutive batches per case '
+        '(fresh sampler state before the first); names include look-alikes of the relation marker (BRAND_RELEVANCE, AND_REL without blanks) and of the label. Non-trivial = >=3 columns and (cap < |required pairs| or pairwise or 3MR). Distinct = digest of the case.')
 ASSUMPTIONS = ['duplicate candidates (pairwise mode lists non-label self pairs twice) are tolerated: the statement speaks of sets of pairs',
                'self pairs of relation features are allowed but not required (statement silent)',
                'required-set inclusion is asserted only when the cap is at least the length of the longest candidate list a '
                'duplicate-tolerant implementation may build (|required| + #non-label columns)']
 
+TRICKY_NAMES = ['BRAND_RELEVANCE', 'AND_REL', 'xAND_RELy', ' AND_REL', 'AND_REL ', 'a AND b', 'AND', 'REL', 'label2', 'xlabel', ' label',
+                'label ', 'Label', 'a,b', "('a', 'b')", '0', 'None', 'nan']
 NAME_ALPHABET = ['a', 'b', 'c', 'x', 'y', 'f', '1', '2', ' ', '_', '-', '.', 'é', '日', 'A', 'N', 'D', '&', '|']
 
 
@@ -30,7 +32,8 @@ NAME_ALPHABET = ['a', 'b', 'c', 'x', 'y', 'f', '1', '2', ' ', '_', '-', '.', 'é
 def names_strategy(draw):
     n = draw(st.one_of(st.integers(1, 6), st.integers(1, 40)))
     base = draw(st.lists(st.text(alphabet=NAME_ALPHABET, min_size=1, max_size=6), min_size=n, max_size=n, unique=True))
-    base = [b for b in base if b != 'label' and ' AND_REL ' not in b] or ['f']
+    tricky = draw(st.lists(st.sampled_from(TRICKY_NAMES), max_size=3, unique=True))
+    base = [b for b in dict.fromkeys(base + tricky) if b != 'label' and ' AND_REL ' not in b] or ['f']
     # turn some into relation-feature names
     nrel = draw(st.integers(0, min(4, len(base) // 2)))
     rel = []
@@ -56,7 +59,8 @@ def case_strategy(draw):
     heuristic = draw(st.sampled_from(['MI-numba-randomized', 'MI-numba-3mr', 'Constant']))
     nreq = len(required_pairs(cols, pairwise, heuristic))
     cap = draw(st.one_of(st.integers(1, nreq + len(cols) + 5), st.sampled_from([2**15, 10**4 + 1, 10**5])))
-    return {'cols': cols, 'nrows': nrows, 'seed': seed, 'pairwise': pairwise, 'heuristic': heuristic, 'cap': cap}
+    return {'cols': cols, 'nrows': nrows, 'seed': seed, 'pairwise': pairwise, 'heuristic': heuristic, 'cap': cap,
+            'batches': draw(st.sampled_from([1, 1, 2, 3]))}
 
 
 def upair(a, b):
@@ -90,44 +94,55 @@ def oracle(case, rec):
     args = stubs.make_args(heuristic=h, target_ranking_only='False' if pairwise else 'True',
                            combination_number_upper_bound=cap)
     stubs.reset_globals()
-    out = mixed_rank_graph(df, args, stubs.InlinePool(), stubs.PBar()).triplet_scores
     req = required_pairs(cols, pairwise, h)
     allowed = allowed_pairs(cols, pairwise, h)
     eff_cap = min(cap, 10**4) if '3mr' in h else cap
     dups = len([c for c in cols if c != 'label']) if pairwise else 0
+    nb = int(case.get('batches', 1))
     rec.nt(len(cols) >= 3 and (eff_cap < len(req) or pairwise or '3mr' in h), key=case)
-    rec.cls('h=' + h, 'pairwise' if pairwise else 'target-only', 'capped' if eff_cap < len(req) else 'uncapped')
+    rec.cls('h=' + h, 'pairwise' if pairwise else 'target-only', 'capped' if eff_cap < len(req) else 'uncapped',
+            'batches=%d' % nb)
     if any(' AND_REL ' in c for c in cols):
         rec.cls('has-relation-feature')
+    if any('AND_REL' in c and ' AND_REL ' not in c for c in cols):
+        rec.cls('has-lookalike-of-relation-name')
     colset = set(cols)
-    for a, b, s in out:
-        if a not in colset or b not in colset:
-            raise Violation(f'row mentions a column outside the feature space: {(a, b)}', kind='C06/foreign-column')
-    evaluated = {upair(a, b) for a, b, _ in out}
-    if not evaluated <= allowed:
-        raise Violation(f'evaluated pairs outside the requested set: {sorted(evaluated - allowed)[:5]}', kind='C06/not-requested')
-    if h == 'Constant':
-        if any(float(s) != 0.0 for _, _, s in out):
-            raise Violation('Constant heuristic emitted a non-zero score', kind='C06/constant')
-        nsel = len(out)
-    else:
-        rows = Counter((a, b, float(s)) for a, b, s in out)
-        for (a, b, s), k in rows.items():
-            if rows.get((b, a, s), 0) != k:
-                raise Violation(f'orientation ({a!r},{b!r},{s}) occurs {k}x but its mirror {rows.get((b, a, s), 0)}x',
-                                kind='C06/mirroring')
-        if len(out) % 2:
-            raise Violation(f'odd number of rows {len(out)}', kind='C06/mirroring')
-        nsel = len(out) // 2
-    if nsel > eff_cap:
-        raise Violation(f'{nsel} candidates evaluated, cap is {eff_cap}', kind='C06/cap')
-    if len(evaluated) != min(eff_cap, len(req)) and not (len(req) <= len(evaluated) <= len(allowed) and eff_cap >= len(req)):
-        raise Violation(f'{len(evaluated)} distinct pairs evaluated; requested {len(req)}, cap {eff_cap}', kind='C06/cap')
-    if eff_cap >= len(req) + dups:
-        missing = req - evaluated
-        if missing:
-            raise Violation(f'requested pairs missing although the cap ({eff_cap}) does not bind: {sorted(missing)[:5]} '
-                            f'({len(missing)} of {len(req)})', kind='C06/missing-pair')
+    for bi in range(nb):
+        out = mixed_rank_graph(df, args, stubs.InlinePool(), stubs.PBar()).triplet_scores
+        where = f'batch {bi + 1} of {nb}: '
+        for a, b, s in out:
+            if a not in colset or b not in colset:
+                raise Violation(where + f'row mentions a column outside the feature space: {(a, b)}', kind='C06/foreign-column')
+        evaluated = {upair(a, b) for a, b, _ in out}
+        if not evaluated <= allowed:
+            raise Violation(where + f'evaluated pairs outside the requested set: {sorted(evaluated - allowed)[:5]}',
+                            kind='C06/not-requested')
+        if h == 'Constant':
+            if any(float(s) != 0.0 for _, _, s in out):
+                raise Violation(where + 'Constant heuristic emitted a non-zero score', kind='C06/constant')
+            nsel = len(out)
+        else:
+            rows = Counter((a, b, float(s)) for a, b, s in out)
+            for (a, b, s), k in rows.items():
+                if rows.get((b, a, s), 0) != k:
+                    raise Violation(where + f'orientation ({a!r},{b!r},{s}) occurs {k}x but its mirror {rows.get((b, a, s), 0)}x',
+                                    kind='C06/mirroring')
+            if len(out) % 2:
+                raise Violation(where + f'odd number of rows {len(out)}', kind='C06/mirroring')
+            nsel = len(out) // 2
+        if nsel > eff_cap:
+            raise Violation(where + f'{nsel} candidates evaluated, cap is {eff_cap}', kind='C06/cap')
+        if nsel < min(eff_cap, len(req)):
+            raise Violation(where + f'only {nsel} candidates evaluated; requested {len(req)}, cap {eff_cap}', kind='C06/cap')
+        if bi == 0:
+            # fresh sampler state: the distinct pairs are exactly min(cap, requested) (duplicates sort last)
+            if len(evaluated) != min(eff_cap, len(req)) and not (len(req) <= len(evaluated) <= len(allowed) and eff_cap >= len(req)):
+                raise Violation(where + f'{len(evaluated)} distinct pairs evaluated; requested {len(req)}, cap {eff_cap}', kind='C06/cap')
+        if eff_cap >= len(req) + dups:
+            missing = req - evaluated
+            if missing:
+                raise Violation(where + f'requested pairs missing although the cap ({eff_cap}) does not bind: {sorted(missing)[:5]} '
+                                f'({len(missing)} of {len(req)})', kind='C06/missing-pair')
 
 
 KINDS = ['C06/pairs', 'C06/foreign-column', 'C06/not-requested', 'C06/constant', 'C06/mirroring', 'C06/cap', 'C06/missing-pair']
